@@ -254,6 +254,13 @@ func gcRun(rt *hookrt.Runtime, sc *gcScenario, rng *rand.Rand) {
 			go func(c int) { defer wgClose.Done(); closeOnce(c) }(c)
 		}
 	}
+	if sc.CloseAfter == 0 {
+		// Close while the first Publish call is under way (it has passed its closed check)
+		go func() {
+			decoWaitCount(rt, "gochannel.publish.rrequest", 1, 300*time.Millisecond)
+			startClose()
+		}()
+	}
 	for pi, p := range sc.Pubs {
 		wgPubs.Add(1)
 		go func(pi int, p gcPubSpec) {
@@ -393,7 +400,9 @@ func gcForce(rt *hookrt.Runtime, sc *gcScenario) {
 	T := 400 * time.Millisecond
 	switch sc.Forced {
 	case "publish.closed_check x Close":
-		rt.AddRule(&hookrt.ParkRule{Point: "gochannel.publish.closed_check", Keys: []string{"open"}, Nth: 1, Until: "gochannel.close.nil_persisted", Timeout: T})
+		// the closed check is stamped while closedLock is held (inside isClosed), so the publisher is
+		// parked at its next point, before RLock: Close can then run to completion
+		rt.AddRule(&hookrt.ParkRule{Point: "gochannel.publish.rrequest", Nth: 1, Until: "gochannel.close.nil_persisted", Timeout: T})
 	case "publish.persisted x Subscribe":
 		rt.AddRule(&hookrt.ParkRule{Point: "gochannel.publish.persisted", Nth: 1, Until: "gochannel.subscribe.wrequest", Timeout: T})
 	case "publish.snapshot x Subscribe":
@@ -431,10 +440,12 @@ var gcForcedNames = []string{
 	"subscribe.wg_added x Close", "publish.wait_ack x cancel",
 }
 
+var gcMode string
+
 func gcGenerate(rng *rand.Rand, id int, forced string) *gcScenario {
 	sc := &gcScenario{ID: id, Forced: forced, CloseAfter: -1, Closers: 1}
 	sc.Buffer = []int{0, 0, 1, 3}[rng.Intn(4)]
-	sc.Persistent = rng.Intn(2) == 0
+	sc.Persistent = rng.Intn(2) == 0 || gcMode == "persistent"
 	sc.Blocking = rng.Intn(3) == 0
 	ntopics := 1 + rng.Intn(2)
 	nsubs := 1 + rng.Intn(4)
@@ -480,7 +491,7 @@ func gcGenerate(rng *rand.Rand, id int, forced string) *gcScenario {
 			s.CancelAt = 1 + rng.Intn(3)
 			s.Drain = rng.Intn(2) == 0
 		}
-		if rng.Intn(4) == 0 && totalCalls > 1 {
+		if (rng.Intn(4) == 0 || (gcMode == "persistent" && rng.Intn(2) == 0)) && totalCalls > 1 {
 			s.StartAt = 1 + rng.Intn(totalCalls-1)
 		}
 		sc.Subs = append(sc.Subs, s)
@@ -548,7 +559,9 @@ func cmdGoChan(args []string) error {
 	ncases := fs.Int("cases", 60, "random scenarios")
 	forcedRounds := fs.Int("forced", 1, "rounds over the forced overlaps")
 	only := fs.String("only", "", "only this forced overlap")
+	mode := fs.String("mode", "", "\"persistent\": persistent configurations only, more late subscriptions (C11)")
 	fs.Parse(args)
+	gcMode = *mode
 	rng := rand.New(rand.NewSource(*seed))
 	rt := hookrt.Install(*seed)
 	defer hookrt.Uninstall()
